@@ -1,15 +1,15 @@
 #!/bin/bash
 # usage: seed_sweep.sh [outfile]  -- runs 'gtverify all' on a scratch copy of /repo with each seeded/canary patch applied
 out=${1:-/tmp/sweep/result.txt}
-rm -rf /tmp/sweep/repo; mkdir -p /tmp/sweep; cp -r /repo /tmp/sweep/repo; : > $out
+rm -rf /tmp/sweep/repo; mkdir -p /tmp/sweep; cp -r /repo /tmp/sweep/repo; cp /verif/bin/gtverify /tmp/sweep/gtverify; : > $out
 cd /tmp/sweep/repo
 run() { # name patch
   if ! git apply "$2" 2>/dev/null; then echo "== $1 APPLY-FAILED" >> $out; return; fi
   echo "== $1" >> $out
-  /verif/bin/gtverify all -q -repo /tmp/sweep/repo 2>&1 | grep -E "^(FAIL|VACUOUS|MISSING|OUT-OF-REACH|LOAD-ERROR|contract error|ALL)" | cut -c1-220 >> $out
+  /tmp/sweep/gtverify all -q -repo /tmp/sweep/repo 2>&1 | grep -E "^(FAIL|VACUOUS|MISSING|OUT-OF-REACH|LOAD-ERROR|contract error|ALL)" | cut -c1-220 >> $out
   git apply -R "$2"
 }
-echo "== BASELINE" >> $out; /verif/bin/gtverify all -q -repo /tmp/sweep/repo 2>&1 | grep -E "^(FAIL|VACUOUS|ALL|contract)" >> $out
+echo "== BASELINE" >> $out; /tmp/sweep/gtverify all -q -repo /tmp/sweep/repo 2>&1 | grep -E "^(FAIL|VACUOUS|ALL|contract)" >> $out
 for d in /verif/seeded/*/; do run "seed $(basename $d)" $d/patch.diff; done
 for p in /verif/selftest/mutants/*.patch; do run "mutant $(basename $p .patch)" $p; done
 echo DONE >> $out
